@@ -4,7 +4,7 @@
    Run with the output directory as cwd (Coq 8.16 has no output-dir option). *)
 From Coq Require Import Extraction ExtrOcamlBasic.
 From LF Require Import Base.Opcode Base.Num Base.Arena Tree.Build Tree.Flatten
-  Tree.Optimize Eval.Deck Eval.Push.
+  Tree.Optimize Eval.Deck Eval.Push Serial.Codec.
 
 Extraction Language OCaml.
 Extraction "model.ml"
@@ -12,4 +12,5 @@ Extraction "model.ml"
   init_arena mk_const mk_nullary mk_var mk_unary mk_bin mk_remap mk_apply
   flags_of flatten optimized optimized_helper tree_eq
   walk mk_deck init_slots set_point eval_tape tape_value
-  tape_push keep_point keep_interval.
+  tape_push keep_point keep_interval
+  serialize deserialize.
